@@ -175,6 +175,25 @@ func runRT(c RTCase) (res evid.Result) {
 }
 
 func genRT(t *rapid.T) RTCase {
+	if rapid.IntRange(0, 3).Draw(t, "wide") == 0 {
+		// one document holding several block scalars next to each other: encoder
+		// passes that post-process the whole document interact across scalars
+		ml := dgen.Multiline()
+		n := rapid.IntRange(2, 5).Draw(t, "nml")
+		tr := &dgen.Node{K: "object"}
+		for i := 0; i < n; i++ {
+			s := rapid.SampledFrom(ml).Draw(t, "ml")
+			if rapid.IntRange(0, 3).Draw(t, "join") == 0 {
+				s += rapid.SampledFrom(ml).Draw(t, "ml2")
+			}
+			var v *dgen.Node = &dgen.Node{K: "string", S: s}
+			if rapid.IntRange(0, 3).Draw(t, "nest") == 0 {
+				v = &dgen.Node{K: "list", L: []*dgen.Node{v, {K: "int", N: "1"}}}
+			}
+			tr.O = append(tr.O, &dgen.Field{K: fmt.Sprintf("k%d", i), V: v})
+		}
+		return RTCase{Tree: tr, Via: rapid.SampledFrom([]string{"encode", "encode", "builtin", "stream"}).Draw(t, "via")}
+	}
 	o := dgen.Opts{Depth: 3, Strings: [][]string{dgen.YAMLHostile, dgen.YAMLHostile, dgen.CUEHostile}, NFC: true}
 	return RTCase{Tree: dgen.Gen(t, o), Via: rapid.SampledFrom([]string{"encode", "encode", "encode", "builtin", "stream"}).Draw(t, "via")}
 }
